@@ -197,3 +197,42 @@ def run_tr(which,repo,seed,tier):
     fails+=[dict(args={'design':nm},failed=[m],custom=dict(kind='custom',module='zoo.replay',entry='replay_tr',which=nm)) for m in r[:6]]
   return [dict(key=f"zoo::translation[{which}]",ok=True,error=None,obligations=[],kind='bounded-standin',lines=None,ast_hash=None,info=None,time=time.time()-t0,is_standin=True,
                standin=dict(evaluations=n,failures=fails,bound=bound,per_case={}))]
+
+def _repljob(a):
+  repo,seed,c=a
+  if repo not in sys.path: sys.path.insert(0,repo)
+  from zoo import replcheck
+  t0=time.time()
+  try: v=replcheck.check_case(repo,c,seed)
+  except Exception as e: v=[f"the replacement scenario could not be run: {type(e).__name__}: {str(e)[:160]}"]
+  return dict(case=c,failed=v,time=time.time()-t0)
+
+def run_repl(repo,seed,tier,procs=16):
+  from zoo import replcheck
+  cs=replcheck.cases()
+  with Pool(min(procs,len(cs))) as p: res=p.map(_repljob,[(repo,seed,c) for c in cs],chunksize=2)
+  fails=[dict(args={'design':str(r['case'])},failed=[m],custom=dict(kind='custom',module='zoo.replay',entry='replay_repl',case=r['case'],seed=seed)) for r in res for m in r['failed'][:1]]
+  bound=(f"{len(cs)} replacement scenarios (child as attribute / attribute read by a parent block / list element / list element two levels down; old and new child drawn from a combinational leaf, "
+         "a registered leaf and a leaf with an inner component, an internal constant connection and an explicit constraint; replace_component, replace_component_with_obj, and three replacements in a row): "
+         "component/signal name sets, nets with writers, adjacency, update blocks with read/write sets, update_ff, explicit constraints equal those of the same classes built from scratch; no '<deleted>' object remains; identical simulation traces")
+  return [dict(key="zoo::replace_component",ok=True,error=None,obligations=[],kind='bounded-standin',lines=None,ast_hash=None,info=None,time=sum(r['time'] for r in res),is_standin=True,
+               standin=dict(evaluations=len(res),failures=fails,bound=bound,per_case={}))]
+
+def _clqjob(a):
+  repo,seed,c=a
+  if repo not in sys.path: sys.path.insert(0,repo)
+  from zoo import clqcheck
+  t0=time.time()
+  try: v=clqcheck.run_case(repo,c['kind'],c['n'],c['order'],seed)
+  except Exception as e: v=[f"the queue harness could not run: {type(e).__name__}: {str(e)[:160]}"]
+  return dict(case=c,seed=seed,failed=v,time=time.time()-t0)
+
+def run_clq(repo,seed,tier,procs=16):
+  from zoo import clqcheck
+  cs=clqcheck.cases(); seeds=[seed+1,seed+2,seed+3] if tier=='quick' else [seed+k for k in range(1,13)]
+  with Pool(min(procs,len(cs))) as p: res=p.map(_clqjob,[(repo,sd,c) for c in cs for sd in seeds],chunksize=2)
+  fails=[dict(args={'design':f"{r['case']} seed={r['seed']}"},failed=[m],custom=dict(kind='custom',module='zoo.replay',entry='replay_clq',case=r['case'],seed=r['seed'])) for r in res for m in r['failed'][:1]]
+  bound=(f"cycle-level queues NormalQueueCL / PipeQueueCL / BypassQueueCL, capacity 1..3, every legal order of the enqueueing and the dequeueing block (explicit either way, or left to the scheduler), "
+         f"{len(seeds)} seeded offer sequences of 40 cycles: ready answers equal the table of the statement for the queue kind, dequeued messages are the accepted ones in order, occupancy never exceeds capacity")
+  return [dict(key="zoo::cl_queues",ok=True,error=None,obligations=[],kind='bounded-standin',lines=None,ast_hash=None,info=None,time=sum(r['time'] for r in res),is_standin=True,
+               standin=dict(evaluations=len(res),failures=fails,bound=bound,per_case={}))]
